@@ -327,6 +327,20 @@ mod tests {
     }
 
     #[actix_rt::test]
+    async fn http10_response_with_zero_content_length_has_no_payload() {
+        let mut codec = ClientCodec::default();
+        let mut buf = BytesMut::from("HTTP/1.0 200 OK\r\ncontent-length: 0\r\n\r\n");
+        codec.decode(&mut buf).unwrap().unwrap();
+        assert!(matches!(codec.message_type(), MessageType::None));
+
+        // without a length an HTTP/1.0 response is still read until the connection closes
+        let mut codec = ClientCodec::default();
+        let mut buf = BytesMut::from("HTTP/1.0 200 OK\r\n\r\n");
+        codec.decode(&mut buf).unwrap().unwrap();
+        assert!(matches!(codec.message_type(), MessageType::Payload));
+    }
+
+    #[actix_rt::test]
     async fn eof_before_content_length_is_incomplete() {
         let mut buf = BytesMut::new();
         let mut pl = payload_codec("HTTP/1.1 200 OK\r\ncontent-length: 10\r\n\r\nabc", &mut buf);
